@@ -61,7 +61,13 @@ def cases(tier, seed):
             M = float(np.round(rng.uniform(0.3, Mmax), 3))           # off the grid
         M = max(M, 0.3)
         aniso = rng.random() < 0.25
-        Ms = [M, max(0.3, float(np.round(M * rng.uniform(0.4, 1.0), 2))), M] if aniso else [M, M, M]
+        if aniso:
+            # per-axis ranges, any axis the widest (also ranges whose ceilings differ between all three axes)
+            fac = [1.0, float(rng.uniform(0.4, 1.0)), float(rng.uniform(0.25, 1.0))]
+            fac = [fac[i] for i in rng.permutation(3)]
+            Ms = [max(0.3, float(np.round(M * f, 2))) for f in fac]
+        else:
+            Ms = [M, M, M]
         out.append({
             "model": model, "shape": list(shape), "sigma": list(sig), "M": Ms,
             "mask": mask_kind,
